@@ -145,7 +145,16 @@ class Sim:
     def _adversary(self, action, path):
         """Another process touches the path of the call that is about to happen (check-then-use)."""
         p = path if _os.path.isabs(path) else _os.path.join(_os.getcwd(), path)
-        if not _os.path.realpath(p).startswith(self.real_root + "/"):
+        rp = _os.path.realpath(p)
+        if not rp.startswith(self.real_root + "/"):
+            return
+        # never pull the ground from under the process itself: the directories it is in (or has to return
+        # to) are not touched, otherwise "cwd restored" would be unanswerable
+        try:
+            held = [_os.path.realpath(_os.getcwd())] + list(self.chdir_stack)
+        except OSError:
+            held = list(self.chdir_stack)
+        if any(h == rp or h.startswith(rp + "/") for h in held):
             return
         try:
             if action == "delete":
